@@ -98,13 +98,19 @@ func (g *Gen) concHeavy(n int) {
 			return Step{Op: "Apply", Recv: f, Instrs: []Instr{{Fn: FnRef{K: "fn1", Sym: "UpperS"}, Dst: toBS(dst), Src1: toBS("S")}}}
 		}
 	}
+	// the failing and the plain filters of batch 6 once one after the other as well: what the failing ones
+	// leave behind in process-wide state reaches the next call on this goroutine first
+	for k := 0; k < 2; k++ {
+		g.do(mk(6))
+		g.do(mk(7))
+	}
 	for batch := 0; batch < 7; batch++ {
 		subs := []Step{}
 		focus := batch // most goroutines of a batch do the same kind of thing; every kind gets its batch
 		for j := 0; j < 8; j++ {
 			k := focus
 			if batch == 6 {
-				k = 6 + j%2
+				k = 6 + (j/2)%2
 			}
 			if g.rng.Intn(4) == 0 {
 				k = g.rng.Intn(6)
